@@ -75,6 +75,27 @@ func (rp *Replay) Observe(types, ids []string) []string {
 	return obs
 }
 
+// ObserveDeep is Observe followed by a teardown: every (type, pipeline id) of the alphabet is removed in turn and
+// all node ids are probed again after each removal. Hidden differences in the reference counts (a node that
+// stays pinned, or is released one removal too early) become observable that way.
+func (rp *Replay) ObserveDeep(types, pids, ids []string) []string {
+	obs := rp.Observe(types, ids)
+	for _, t := range types {
+		for _, pid := range pids {
+			// (the call's own result is left out: it depends on whether the type has a graph at all, which a
+			// failing RegisterPipeline for a new type does create and which is none of the observables the
+			// statement lists)
+			_ = rp.W.B.RemovePipeline(eventlogger.EventType(t), eventlogger.PipelineID(pid))
+			line := fmt.Sprintf("teardown RemovePipeline(%s/%s):", t, pid)
+			for _, id := range ids {
+				line += " " + id + "=" + rp.probeRemove(id)
+			}
+			obs = append(obs, line)
+		}
+	}
+	return obs
+}
+
 // probeRemove calls the real RemoveNode and classifies the result.
 func (rp *Replay) probeRemove(id string) string {
 	before := map[*RecNode]int{}
